@@ -266,34 +266,47 @@ package storage
 //@ spec pred cacheOK(f *fileStore) { f.cache != nil && lruInv(f.cache) && f.cache.maxNodes >= 0 }
 //@ spec pred cached(f *fileStore, n *btreeNode) { has(f.cache.cache, n.fileOffset) && centry(f.cache.cache[n.fileOffset]).val == n }
 
+// Lock typestate (C13): txn is 0 when the session goroutine holds no lock on the store, 1 while it
+// holds the shared (statement) lock, 2 while it holds the exclusive (flush) lock. A store whose
+// flush timer is running (autoFlushCache) may only be touched with a lock held.
+//@ ghost var txn int
+//@ spec pred fsLocked(f *fileStore) { !f.autoFlushCache || txn != 0 }
+//@ spec pred fsExcl(f *fileStore) { !f.autoFlushCache || txn == 2 }
+
 //@ func (f *fileStore) getLastKey() uint32
 //@   props C01 C02
+//@   requires fsLocked(f)
 //@   pure
 //@   ensures result == f.lastKey
 
 //@ func (f *fileStore) incrementLastKey() error
 //@   props C01 C02
+//@   requires fsLocked(f)
 //@   modifies f.lastKey
 //@   ensures result == nil && f.lastKey == uint32(old(f.lastKey) + 1)
 
 //@ func (f *fileStore) nextLSN() uint64
 //@   props C02
+//@   requires fsLocked(f)
 //@   pure
 //@   ensures result == f._nextLSN
 
 //@ func (f *fileStore) incrLSN()
 //@   props C02
+//@   requires fsLocked(f)
 //@   modifies f._nextLSN
 //@   ensures f._nextLSN == uint64(old(f._nextLSN) + 1)
 
 //@ func (f *fileStore) setPageTableRoot(node *btreeNode) error
 //@   props C01
+//@   requires fsLocked(f)
 //@   requires node != nil
 //@   modifies f.pageTableRoot
 //@   ensures result == nil && f.pageTableRoot == node.fileOffset
 
 //@ func (f *fileStore) append(node *btreeNode) error
 //@   props C01 C11 C16
+//@   requires fsLocked(f)
 //@   requires cacheOK(f) && node != nil
 //@   modifies node.fileOffset, f.nextFreeOffset, listLen(f.cache.list), listAt(f.cache.list), listPos, listOf, mapof(f.cache.cache), all(cacheEntry.val)
 //@   ensures[offset] node.fileOffset == old(f.nextFreeOffset)
@@ -331,6 +344,7 @@ package storage
 
 //@ func (f *fileStore) fetch(offset uint64) (*btreeNode, error)
 //@   props C01 C11 C12 C16
+//@   requires fsLocked(f)
 //@   trusted
 //@   requires cacheOK(f)
 //@   modifies listLen(f.cache.list), listAt(f.cache.list), listPos, listOf, mapof(f.cache.cache), all(cacheEntry.val)
@@ -343,6 +357,7 @@ package storage
 
 //@ func (b *BTree) getRoot() (*btreeNode, error)
 //@   props C01 C11
+//@   requires fsLocked(fsOf(b))
 //@   requires btOK(b)
 //@   modifies listLen(fsOf(b).cache.list), listAt(fsOf(b).cache.list), listPos, listOf, mapof(fsOf(b).cache.cache), all(cacheEntry.val)
 //@   ensures btOK(b)
@@ -535,6 +550,7 @@ package storage
 
 //@ func (b *BTree) scanRight(f func(kv *leafCell) (ScanAction, error)) error
 //@   props C01 C02 C11
+//@   requires fsLocked(fsOf(b))
 //@   trusted
 //@   requires btOK(b)
 //@   callback f(kv) guarantees kv != nil && kv.pg != nil && leafOK(kv.pg) && !kv.deleted &&
@@ -547,7 +563,6 @@ package storage
 
 // ---- relation service: LSN protocol (C02), error frames (C14), statement bracket (C13) ----
 
-//@ ghost var txn int
 //@ spec modset treeState = all(btreeNode.offsets), all(btreeNode.leafCells), all(btreeNode.internalCells), all(btreeNode.rightOffset), all(btreeNode.dirty), all(btreeNode.lastLSN), all(btreeNode.hasRSib), all(btreeNode.hasLSib), all(btreeNode.rSibFileOffset), all(btreeNode.lSibFileOffset), all(btreeNode.fileOffset), all(leafCell.valueBytes), all(leafCell.valueSize), all(leafCell.pg), all(leafCell.deleted), allelems(uint16), allelems(*leafCell), allelems(*internalCell)
 //@ spec modset cacheState = listLen, listAt, listPos, listOf, all(cacheEntry.val), cachemaps(0)
 //@ spec pred rsOK(rs *RelationService) { rs.fs != nil && cacheOK(rs.fs) && rs.wal != nil }
@@ -555,6 +570,7 @@ package storage
 
 //@ func (b *BTree) insertKey(key uint32, nextLSN uint64, value []byte) error
 //@   props C01 C02
+//@   requires fsLocked(fsOf(b))
 //@   trusted
 //@   requires btOK(b)
 //@   modifies @treeState, @cacheState, storeState, b.rootOffset, fsOf(b).nextFreeOffset
@@ -562,14 +578,16 @@ package storage
 
 //@ func (b *BTree) insert(value []byte) (uint32, uint64, error)
 //@   props C01 C02
-//@   requires btOK(b) && fsOf(b).lastKey < 4294967295 && fsOf(b)._nextLSN < 18446744073709551615
+//@   requires fsLocked(fsOf(b))
+//@   requires btOK(b)
 //@   modifies @treeState, @cacheState, storeState, b.rootOffset, fsOf(b).nextFreeOffset, fsOf(b).lastKey, fsOf(b)._nextLSN
 //@   ensures[bt] btOK(b)
-//@   ensures[key; C01] result0 == old(fsOf(b).lastKey) + 1 && fsOf(b).lastKey == old(fsOf(b).lastKey) + 1
-//@   ensures[L1; C02] result1 == old(fsOf(b)._nextLSN) && fsOf(b)._nextLSN == old(fsOf(b)._nextLSN) + 1
+//@   ensures[key; C01] result0 == uint32(old(fsOf(b).lastKey) + 1) && fsOf(b).lastKey == uint32(old(fsOf(b).lastKey) + 1)
+//@   ensures[L1; C02] result1 == old(fsOf(b)._nextLSN) && fsOf(b)._nextLSN == uint64(old(fsOf(b)._nextLSN) + 1)
 
 //@ func (b *BTree) findCell(key uint32) (*leafCell, error)
 //@   props C01 C11
+//@   requires fsLocked(fsOf(b))
 //@   trusted
 //@   requires btOK(b)
 //@   modifies all(leafCell.pg), @cacheState, storeState
@@ -630,6 +648,7 @@ package storage
 
 //@ func (rs *RelationService) getRelationFileOffset(relName string) (int64, error)
 //@   props C01 C02 C14
+//@   requires fsLocked(rs.fs)
 //@   requires rsOK(rs)
 //@   modifies all(leafCell.pg), @cacheState, storeState
 //@   ensures[rs] rsOK(rs)
@@ -637,6 +656,7 @@ package storage
 
 //@ func (rs *RelationService) getRelationSchema(relName string) (*Relation, error)
 //@   props C01
+//@   requires fsLocked(rs.fs)
 //@   trusted
 //@   requires rsOK(rs)
 //@   modifies all(leafCell.pg), @cacheState, storeState
@@ -645,12 +665,13 @@ package storage
 
 //@ func (rs *RelationService) Update$1(cell *leafCell) (ScanAction, error)
 //@   props C01 C02 C04 C14
+//@   requires txn != 0
 //@   requires cell != nil && cell.pg != nil && leafOK(cell.pg)
 //@   requires rs != nil && rs.fs != nil && r != nil
 //@   requires len(cols) <= len(updateSrc)
 //@   assume[lsn-no-wrap] rs.fs._nextLSN < 18446744073709551615
 //@   invariant[L1; C02] rs.fs._nextLSN - len(walLogs) == old(rs.fs._nextLSN - len(walLogs))
-//@   modifies cell(walLogs), rs.fs._nextLSN, all(leafCell.valueBytes), all(leafCell.valueSize), all(btreeNode.dirty), all(btreeNode.lastLSN), storeState, allelems(*WALEntry)
+//@   modifies cell(walLogs), rs.fs._nextLSN, all(leafCell.valueBytes), all(leafCell.valueSize), all(btreeNode.dirty), all(btreeNode.lastLSN), storeState, elems(walLogs)
 //@   ensures[L2; C02 C04] (forall c *leafCell :: c.valueBytes == old(c.valueBytes) && c.valueSize == old(c.valueSize)) ||
 //@              (cell.pg.dirty && cell.pg.lastLSN == old(rs.fs._nextLSN) && rs.fs._nextLSN == old(rs.fs._nextLSN) + 1)
 //@   ensures[err.frame; C14] result1 != nil ==> rs.fs._nextLSN == old(rs.fs._nextLSN) && len(walLogs) == old(len(walLogs)) &&
@@ -662,9 +683,107 @@ package storage
 //@ func (rs *RelationService) Update(tableName string, rowID uint32, cols []string, updateSrc []interface{}) (WALBatch, error)
 //@   props C01 C02 C13 C14
 //@   requires rsOK(rs) && txn == 1 && len(cols) <= len(updateSrc)
-//@   modifies all(leafCell.pg), all(leafCell.valueBytes), all(leafCell.valueSize), all(btreeNode.dirty), all(btreeNode.lastLSN), @cacheState, storeState, rs.fs._nextLSN, allelems(*WALEntry)
+//@   modifies all(leafCell.pg), all(leafCell.valueBytes), all(leafCell.valueSize), all(btreeNode.dirty), all(btreeNode.lastLSN), @cacheState, storeState, rs.fs._nextLSN
 //@   ensures[rs] rsOK(rs) && txn == 1
 //@   ensures[L1; C02] rs.fs._nextLSN == old(rs.fs._nextLSN) + len(result0)
+
+//@ func (rs *RelationService) updatePageTable$1(cell *leafCell) (ScanAction, error)
+//@   props C01 C02 C04 C14
+//@   requires txn != 0
+//@   requires cell != nil && cell.pg != nil && leafOK(cell.pg)
+//@   requires rs != nil && rs.fs != nil
+//@   assume[lsn-no-wrap] rs.fs._nextLSN < 18446744073709551615
+//@   invariant[L1; C02] rs.fs._nextLSN - len(walLogs) == old(rs.fs._nextLSN - len(walLogs))
+//@   modifies cell(walLogs), cell(found), rs.fs._nextLSN, all(leafCell.valueBytes), all(leafCell.valueSize), all(btreeNode.dirty), all(btreeNode.lastLSN), storeState, elems(walLogs)
+//@   ensures[L2; C02 C04] (forall c *leafCell :: c.valueBytes == old(c.valueBytes) && c.valueSize == old(c.valueSize)) ||
+//@              (cell.pg.dirty && cell.pg.lastLSN == old(rs.fs._nextLSN) && rs.fs._nextLSN == old(rs.fs._nextLSN) + 1)
+//@   ensures[err.frame; C14] result1 != nil ==> rs.fs._nextLSN == old(rs.fs._nextLSN) && len(walLogs) == old(len(walLogs)) &&
+//@              (forall c *leafCell :: c.valueBytes == old(c.valueBytes) && c.valueSize == old(c.valueSize)) &&
+//@              (forall n *btreeNode :: n.dirty == old(n.dirty) && n.lastLSN == old(n.lastLSN))
+
+//@ func (rs *RelationService) updatePageTable(fileOffset uint64, tableName string) (WALBatch, error)
+//@   props C01 C02 C14
+//@   requires fsLocked(rs.fs)
+//@   requires rsOK(rs)
+//@   modifies all(leafCell.pg), all(leafCell.valueBytes), all(leafCell.valueSize), all(btreeNode.dirty), all(btreeNode.lastLSN), @cacheState, storeState, rs.fs._nextLSN
+//@   ensures[rs] rsOK(rs)
+//@   ensures[L1; C02] rs.fs._nextLSN == old(rs.fs._nextLSN) + len(result0)
+
+//@ func (rs *RelationService) Insert(tableName string, cols []string, vals []interface{}) (WALBatch, error)
+//@   props C01 C02 C13 C14
+//@   requires rsOK(rs) && txn == 1
+//@   assume[lsn-no-wrap] rs.fs._nextLSN < 18446744073709551615
+//@   assume[rowid-no-wrap] rs.fs.lastKey < 4294967295
+//@   modifies @treeState, @cacheState, storeState, rs.fs._nextLSN, rs.fs.lastKey, rs.fs.nextFreeOffset, allelems(string)
+//@   ensures[rs] rs.fs != nil && rs.wal != nil
+//@   ensures[rs.cache] cacheOK(rs.fs)
+//@   ensures[txn; C13] txn == 1
+//@   ensures[L1; C02] err == nil ==> rs.fs._nextLSN == old(rs.fs._nextLSN) + len(result0)
+//@   ensures[L1.mono; C02] rs.fs._nextLSN >= old(rs.fs._nextLSN) && rs.fs.lastKey >= old(rs.fs.lastKey)
+//@   ensures[L3.len; C02] err == nil ==> len(result0) >= 1
+//@   ensures[L3.lsn; C02] err == nil ==> result0[0].LSN == old(rs.fs._nextLSN)
+//@   ensures[L3.op; C02] err == nil ==> result0[0].WALOp == OpInsert && result0[0].cellID == old(rs.fs.lastKey) + 1
+//@   ensures[err.early; C14] err != nil && rs.fs.lastKey == old(rs.fs.lastKey) ==> len(result0) == 0 && rs.fs._nextLSN == old(rs.fs._nextLSN)
+
+// ---- page flush and table creation under the lock typestate (C13, C04, C14) ----
+
+//@ func (f *fileStore) update(node *btreeNode) error
+//@   props C04 C12 C13
+//@   trusted
+//@   requires fsExcl(f) && cacheOK(f) && node != nil
+//@   modifies listLen(f.cache.list), listAt(f.cache.list), listPos, listOf, mapof(f.cache.cache), all(cacheEntry.val), storeState
+//@   ensures cacheOK(f)
+
+//@ func (f *fileStore) save() error
+//@   props C04 C12 C13
+//@   trusted
+//@   requires fsExcl(f)
+//@   modifies storeState
+
+//@ func (f *fileStore) flushPages() error
+//@   props C04 C13
+//@   reveal lruInv
+//@   requires txn == 0 && cacheOK(f)
+//@   modifies txn, all(btreeNode.dirty), @cacheState, storeState
+//@   ensures[unlock; C13] txn == 0
+//@   ensures[cache] cacheOK(f)
+//@   loop 1 invariant txn == 2 && cacheOK(f)
+
+//@ func (rs *RelationService) createPage() (*btreeNode, error)
+//@   props C01 C13
+//@   requires rsOK(rs) && fsLocked(rs.fs)
+//@   modifies rs.fs.nextFreeOffset, @cacheState
+//@   ensures[rs] rsOK(rs)
+//@   ensures[page] result0 != nil && fresh(result0) && leafOK(result0) && cnt(result0) == 0 && result0.fileOffset == old(rs.fs.nextFreeOffset)
+//@   ensures[ok] err == nil ==> cached(rs.fs, result0)
+
+//@ func (rs *RelationService) insertPageTable(node *btreeNode, tableName string) error
+//@   props C01 C13
+//@   requires rsOK(rs) && fsLocked(rs.fs) && node != nil
+//@   modifies @treeState, @cacheState, storeState, rs.fs._nextLSN, rs.fs.lastKey, rs.fs.nextFreeOffset, rs.fs.pageTableRoot
+//@   ensures[rs] rsOK(rs)
+
+//@ func (rs *RelationService) insertSchemaTable(r *Relation, tableName string) error
+//@   props C01 C13
+//@   requires rsOK(rs) && fsLocked(rs.fs) && r != nil
+//@   modifies @treeState, @cacheState, storeState, rs.fs._nextLSN, rs.fs.lastKey, rs.fs.nextFreeOffset
+//@   ensures[rs] rsOK(rs)
+//@   loop 1 invariant rsOK(rs)
+//@   loop 1 invariant bt != nil && fresh(bt) && bt.store == rs.fs
+//@   loop 1 invariant schemaTablePg != nil
+
+//@ func (rs *RelationService) createTable(r *Relation, tableName string) error
+//@   props C13 C14
+//@   requires rsOK(rs) && txn == 0 && r != nil
+//@   modifies txn, @treeState, @cacheState, storeState, rs.fs._nextLSN, rs.fs.lastKey, rs.fs.nextFreeOffset, rs.fs.pageTableRoot
+//@   ensures[unlock; C13] txn == 0
+//@   ensures[rs] rsOK(rs)
+
+//@ func (rs *RelationService) CreateTable(r *Relation, tableName string) error
+//@   props C13 C14
+//@   requires rsOK(rs) && txn == 0 && r != nil
+//@   modifies txn, @treeState, @cacheState, storeState, rs.fs._nextLSN, rs.fs.lastKey, rs.fs.nextFreeOffset, rs.fs.pageTableRoot
+//@   ensures[unlock; C13] txn == 0
 
 //@ func (rs *RelationService) MarkDeleted(tableName string, rowID uint32) (WALBatch, error)
 //@   props C01 C02 C13 C14
